@@ -1327,6 +1327,8 @@ class CazacMulti(_CazacBase):
 
 HARNESSES = [PrimeSelection(), RootSequenceE2E(), Extension(), Amplitude(),
              LsEstimator(), CazacSingle(), CazacMulti()]
+for _h in HARNESSES:      # many tiny work units: share forks
+    type(_h).units_per_process = 8
 
 MANIFEST = dict(
     category='model_checking',
